@@ -67,7 +67,9 @@ Inductive mop :=
 | MAssign (i : nat) (v : json)                            (* held[i].data = v *)
 | MDel (i : nat)                                          (* del held[i].data *)
 | MMPop (i : nat) (d : option json)                       (* held[i].pop() / held[i].pop(default) *)
-| MRead (i : nat).                                        (* held[i].data, held[i].path_as_str *)
+| MRead (i : nat)                                         (* held[i].data, held[i].path_as_str *)
+| MGet (p : jpath) (d : @default)                         (* get(p, doc[, default]) : no store *)
+| MFind (p : jpath).                                      (* list(find(p, doc)) *)
 
 Record mcase := { m_doc0 : json; m_nl0 : nat; m_ops : list mop }.
 Record menv := { m_doc : json; m_nl : nat; m_held : list jtm }.
@@ -91,6 +93,18 @@ Fixpoint kth_match (fuel : nat) (doc : json) (p : jpath) (k : nat) (z : jstate) 
       | (OResult m, z', _) => match k with O => Ok (Some m) | S k' => kth_match fuel' doc p k' z' end
       | (ORaise EStop, _, _) => Ok None
       | (ORaise e, _, _) => Exn e
+      end
+  end.
+
+(* list(find(p, doc)) *)
+Fixpoint find_all (fuel : nat) (doc : json) (p : jpath) (z : jstate) : list otree :=
+  match fuel with
+  | O => [ON "cap" []]
+  | S f =>
+      match j_next B (SrcDoc doc) p None z with
+      | (OResult m, z', _) => ON "value" [lval (tdata m)] :: find_all f doc p z'
+      | (ORaise EStop, _, _) => []
+      | (ORaise x, _, _) => [ON "raise" [oexn x]]
       end
   end.
 
@@ -200,6 +214,14 @@ Definition run_mop (e : menv) (o : mop) : otree * menv :=
       | None => finish (ON "skip" []) doc (m_nl e) (m_held e)
       | Some m => finish (ON "read" [lval (tdata m); OS (path_as_str m); oname (data_name m)]) doc (m_nl e) (m_held e)
       end
+  | MGet p d =>
+      match j_get B (SrcDoc doc) p d None with
+      | (Ok (GData m), es) => finish (ON "get" [ON "got" [lval (tdata m)]; oevents es]) doc (m_nl e) (m_held e)
+      | (Ok (GDefault v), es) => finish (ON "get" [ON "got" [lval v]; oevents es]) doc (m_nl e) (m_held e)
+      | (Exn x, es) => finish (ON "get" [ON "raise" [oexn x]; oevents es]) doc (m_nl e) (m_held e)
+      end
+  | MFind p =>
+      finish (ON "find" (find_all 200 doc p init_state)) doc (m_nl e) (m_held e)
   end.
 
 Fixpoint run_mops (e : menv) (os : list mop) : list otree :=
@@ -212,3 +234,25 @@ Definition run_mcase (c : mcase) : otree :=
   ON "m" (snapshot (m_doc0 c) :: run_mops {| m_doc := m_doc0 c; m_nl := m_nl0 c; m_held := [] |} (m_ops c)).
 
 End WithBudget.
+
+(* ------------------------------------------------------------------ descriptor histories (C18)
+   The harness performs the operations through attr / attr_typed / attr_iter_typed descriptors and the
+   deprecated pprop / mprop; the model performs the equivalent plain traversal functions.  Assignments and
+   deletions through a descriptor return nothing, so their outcome is compared as ok / exception only. *)
+Definition strip_res (t : otree) : otree :=
+  match t with ON "raise" k => ON "raise" k | _ => ON "ok" [] end.
+
+Definition strip_op (t : otree) : otree :=
+  match t with
+  | ON "op" [ON tag (r :: _); snap] =>
+      if String.eqb tag "set" || String.eqb tag "pop" then ON "op" [ON tag [strip_res r]; snap]
+      else if String.eqb tag "find" then t
+      else ON "op" [ON tag [r]; snap]
+  | _ => t
+  end.
+
+Definition run_dcase (B : positive) (c : mcase) : otree :=
+  match run_mcase B c with
+  | ON _ (s0 :: ops) => ON "d" (s0 :: map strip_op ops)
+  | t => t
+  end.
